@@ -17,7 +17,8 @@ LEVEL_TEXT = ("Theorems for all regions / parameters / solver outputs about (a) 
               "abstract theorems are lifted: in EVERY attempt of the retry loop, for every solver answer satisfying the constraints "
               "of that attempt, ordered overlapping segments of different connectors are at least the current distance apart "
               "(retry_separation), that distance is > 1e-4 and, in exact arithmetic, in [d/10, d] (retry_distance_*), free segments "
-              "stay within tol of their channel limits (retry_limits), a satisfied round leaves fixed variables / channel edges "
+              "stay within tol of their channel limits (retry_limits), every region of a pass starts again at the ideal distance "
+              "whatever happened in earlier regions (first_attempt_uses_base_distance), a satisfied round leaves fixed variables / channel edges "
               "within 1e-4 (satisfied_close), written positions are inside [minSpaceLimit,maxSpaceLimit], fixed segments and "
               "unsatisfied regions are never written, applied separation >= distance - 2 tol. "
               "Tie: with the guarded hook in /repo every region the real library forms is dumped (ordered segments, variables, the "
@@ -64,7 +65,12 @@ RULE = ("corridor of free width W between two blocks (horizontal/vertical), m=2.
         "only; its route-level effects are the known class opt-final-nudge). Sixth family (tag fan): the corridor scene with "
         "2-4 connectors leaving ONE common source point (+ optionally an unrelated connector), nudgeSharedPathsWithCommonEndPoint "
         "on/off: common-end-point rule, equality constraints, infeasible equality/separation cycles that VPSC resolves by "
-        "dropping a constraint (region tie; no route-level promise for connectors with a common end point). Every case additionally carries the hook dump of all regions (when the hook is in the tree). A case is non-trivial if at least two connectors share a collinear stretch before nudging.")
+        "dropping a constraint (region tie; no route-level promise for connectors with a common end point). Seventh family (tags "
+        "twin-narrow-first / twin-wide-first): two independent corridors 1000 apart in one dimension, a wide one (120 free, 2-4 "
+        "connectors centred onto one line) and a narrow one (width d/20 .. 2.5d, 2-4 connectors: reduced distances or given up "
+        "after ten attempts), the narrow group with the higher or the lower connector ids (= processed first or last): a region "
+        "must not inherit the reduced distance of an earlier one; the wide-enough promise is for the wide corridor's connectors "
+        "only. Every case additionally carries the hook dump of all regions (when the hook is in the tree). A case is non-trivial if at least two connectors share a collinear stretch before nudging.")
 TRUSTED_BASE = ["Lean 4.33 kernel", "axioms: propext, Classical.choice, Quot.sound", "Lean compiler for the driver",
                 "the guarded hook in orthogonal.{h,cpp} (copies values out, changes nothing) and harness/c10_regions.h",
                 "tools/cpp2lean + clang AST (job nudgek)", "Model.NudgeRegion.roundDouble = IEEE round-to-nearest-even (x86-64 SSE2, no FMA contraction)",
